@@ -4,6 +4,7 @@ import (
 	"fmt"
 	"math/rand"
 	"os/exec"
+	"reflect"
 	"runtime/debug"
 	"sort"
 	"strings"
@@ -524,6 +525,25 @@ func (s *Sim) parkForever(t *Task) {
 // instrumenter rewrites x.Load() into simrt.Pt("...", x.Load)().
 func Pt[F any](label string, f F) F {
 	Yield(label)
+	return f
+}
+
+// PtAligned is Pt for an atomic operation on *p, where p is a pointer value the
+// program computed (a cell of a mapped file): the operand must be aligned to
+// its size. Go panics on an unaligned 64-bit atomic on 386, arm and mips, and
+// arm64 cores without LSE2 raise an alignment fault for an unaligned atomic of
+// either size; amd64 performs it silently, so the simulation asserts it.
+func PtAligned[P any, F any](label string, p P, size int, f F) F {
+	Yield(label)
+	if a := reflect.ValueOf(p); a.Kind() == reflect.Pointer || a.Kind() == reflect.UnsafePointer {
+		if addr := a.Pointer(); addr%uintptr(size) != 0 {
+			where := "an alignment fault on arm64 cores without LSE2 and on 32-bit arm"
+			if size == 8 {
+				where = "a panic on 386, arm and mips, an alignment fault on arm64 cores without LSE2"
+			}
+			panic(fmt.Sprintf("unaligned %d-bit atomic operation at %s (address %#x): %s", 8*size, label, addr, where))
+		}
+	}
 	return f
 }
 
